@@ -141,6 +141,27 @@ func init() {
 	}
 }
 
+func init() {
+	// source modules that declare parameters (all undefined / empty when imported), named by several import expressions
+	// whose execution order differs from their order in the source
+	mods := map[string]string{
+		"pm":  "global L\nparam (a, b)\nL(\"body-pm\", a, b)\nn := 0\nreturn {v: [a, b], inc: func() { n++; return n }}\n",
+		"pv":  "global L\nparam (a, ...rest)\nL(\"body-pv\", a, rest)\nreturn func() { return [a, rest] }\n",
+		"use": "global L\nL(\"body-use\")\nreturn {get: func() { return import(\"pm\").inc() }}\n",
+	}
+	for _, src := range []string{
+		"global L\nlate := func() {\n  return import(\"pm\")\n}\nm := import(\"pm\")\nL(m.v, m.inc())\nreturn [late().v, late().inc(), import(\"pm\").inc()]",
+		"global (L, G)\nx := G < 0 ? import(\"pm\") : 0\ny := G < 0 && import(\"pv\")\nm := import(\"pm\")\nf := import(\"pv\")\nL(m.inc(), f())\nreturn [x, y, import(\"pm\").inc(), import(\"pv\")()]",
+		"global L\ntry {\n  throw \"skip\"\n  import(\"pm\")\n} catch e {\n  L(import(\"pm\").inc())\n} finally {\n  L(import(\"pm\").inc())\n}\nu := import(\"use\")\nreturn [u.get(), import(\"pm\").v]",
+		"global (L, CALL)\ncb := func() { return import(\"pv\")() }\nL(CALL(cb))\nL(import(\"pv\")())\nreturn CALL(func() { return import(\"pm\").inc() }) + import(\"pm\").inc()",
+	} {
+		c12probes = append(c12probes, struct {
+			src  string
+			mods map[string]string
+		}{src, mods})
+	}
+}
+
 func c12callGlobal(childImports *int) *ugo.Function {
 	return &ugo.Function{Name: "CALL", ValueEx: func(c ugo.Call) (ugo.Object, error) {
 		if c.Len() < 1 {
